@@ -2,6 +2,7 @@
 from . import i3_card, i1_logic, i5_comb, i4_text
 from . import oracles_design as OD
 from . import i11_api
+from . import oracles_design2 as OD2
 
 TB_COMMON = [
     "Lean 4.33.0 kernel (thorough tier: re-checked with leanchecker)",
@@ -52,6 +53,17 @@ REGISTRY = {
         "trusted_base": TB_COMMON + ["the printed table is parsed by splitting on ' | ' (level names without that separator)", "float formatting of percentages is compared numerically (1e-9), never as text"],
         "assumptions": ["level names are strings"],
     },
+    "C05": _design_prop(OD2.oracle_c05),
+    "C18": _design_prop(OD2.oracle_c18),
+    "C19": _design_prop(OD2.oracle_c19),
+    "C22": _design_prop(OD2.oracle_c22),
+    "C14": _design_prop(OD2.oracle_c14),
+    "C15": _design_prop(OD2.oracle_c15),
+    "C23": _design_prop(OD2.oracle_c23),
+    "C24": _design_prop(OD2.oracle_c24),
+    "C25": _design_prop(OD2.oracle_c25),
+    "C26": _design_prop(OD2.oracle_c26),
+    "C29": _design_prop(OD2.oracle_c29),
     "C01": _design_prop(OD.oracle_c01),
     "C02": _design_prop(OD.oracle_c02),
     "C03": _design_prop(OD.oracle_c03),
